@@ -918,7 +918,7 @@ def _known_tupleop(sub, spec, fail):
             and _inside_tuple_operand(spec))
 
 
-KNOWN = {"F19": _known_f19, "F28": _known_f28, "F29": _known_tupleop}
+KNOWN = {"F19": _known_f19, "F28": _known_f28, "F19b": _known_tupleop}
 
 # }}}
 
